@@ -13,6 +13,9 @@ EXTRA = {  # seed -> other checks worth running
     "C04-3": ["C11"], "C04-4": ["C07"], "C05-3": ["C04"], "C06-3": ["C01", "C15"], "C07-3": ["C15"], "C08-3": ["C11", "C03"], "C08-4": ["C02"],
     "C09-3": ["C17"], "C09-4": ["C06", "C04"], "C10-3": ["C03"], "C10-4": ["C03"], "C11-3": ["C03", "C04"], "C11-4": ["C08", "C03"],
     "C12-3": ["C16"], "C12-4": ["C04"], "C13-3": ["C06"], "C17-4": ["C03", "C02"], "C18-3": [], "C20-3": ["C03"], "C20-4": ["C04"],
+    "C01-6": ["C11", "C02"], "C01-7": ["C02", "C04"], "C02-6": ["C03"], "C02-7": ["C03"], "C03-6": ["C04"], "C03-7": ["C09"], "C04-6": ["C20"], "C04-7": ["C11"],
+    "C06-6": ["C10"], "C06-7": ["C12"], "C07-6": ["C09"], "C09-7": ["C03"], "C11-6": ["C04"], "C11-7": ["C01"], "C16-6": ["C05"], "C16-7": ["C05"],
+    "C20-6": ["C04", "C07"], "C20-7": ["C04", "C11"],
     "D-builder-selection": ["C12"], "D-specconstop-panic": ["C04", "C03", "C20"], "D-specconstop-quantifier": ["C03"], "D-disas-constant": ["C04", "C20"],
 }
 only = sys.argv[1:]
